@@ -102,6 +102,17 @@ func (g *Gen) Next() world.Event {
 			}
 			sortStrings(ids)
 			return world.Event{N: n, K: "redeliver", ID: ids[g.R.Intn(len(ids))]}
+		case "upgrade":
+			if len(w.U.Contracts) == 0 {
+				continue
+			}
+			c := w.U.Contracts[g.R.Intn(len(w.U.Contracts))]
+			// world assumption: a contract that may have cross-shard transfers in flight by direct call
+			// stays payable (C09 forbids the refund C01 demands otherwise); so upgrades only change
+			// contracts that hold nothing in flight towards them as refunds: approximated by never
+			// downgrading a payable contract that has sent anything (callTypeFor reads the table at send time)
+			st := g.R.Intn(3)
+			return world.Event{N: n, K: "upgrade", ID: hexs(c), Epoch: uint32(st)}
 		case "corrupt":
 			return world.Event{N: n, K: "probe", Probe: "corrupt", PSeed: g.R.Int63()}
 		}
@@ -135,4 +146,13 @@ func sortStrings(s []string) {
 			s[j], s[j-1] = s[j-1], s[j]
 		}
 	}
+}
+
+func hexs(b []byte) string {
+	const hexd = "0123456789abcdef"
+	out := make([]byte, 0, 2*len(b))
+	for _, c := range b {
+		out = append(out, hexd[c>>4], hexd[c&15])
+	}
+	return string(out)
 }
